@@ -1874,7 +1874,16 @@ class H2Connection:
         transition the state of the stream, so we need to pass it to the
         appropriate stream.
         """
-        stream = self._get_stream_by_id(frame.stream_id)
+        try:
+            stream = self._get_stream_by_id(frame.stream_id)
+        except NoSuchStreamError:
+            # Includes streams that are closed and forgotten: how they were
+            # closed does not matter, a CONTINUATION frame without a preceding
+            # HEADERS or PUSH_PROMISE is always a connection error.
+            raise ProtocolError(
+                "Received CONTINUATION frame without a header block to "
+                "continue on stream %d" % frame.stream_id
+            )
         stream.receive_continuation()
         assert False, "Should not be reachable"
 
